@@ -21,7 +21,9 @@ TRUSTED_BASE = [
     "trusted); the model's own execution at Float (C library exp/log) is compared with it where well conditioned",
     "QUADPACK quad (used by the implementation) is accurate to 1e-7 relative on these smooth integrands; FITPACK order-1 "
     "spline = linear interpolation of log K",
+    "translator tools/gen_formulas.py: the arithmetic of the named source functions (an expression, or a whole body of assignments, if and return) as Python's own `ast` parses it -> Lean terms over the carrier class in lean/FormulaTie/Gen*.lean; that each is the model's definition is re-checked by `rfl` / a short unfolding on every run (lean/FormulaTie/*.lean)",
 ]
+FORMULA_TIE = ('Spline',)
 ASSUMPTIONS = ["strictly increasing knots, positive conductivities (1e-6 .. 1e6), positive minimum transmissivity",
                "levels at or below the highest knot (above it the code raises NotImplementedError, outside the property)"]
 RULE = ("knot sets of 2-8 knots with conductivities over 12 orders of magnitude x levels below/at the lowest knot, on "
